@@ -139,8 +139,9 @@ type c04World struct {
 	slotParent map[string][]byte
 	slotHeight map[string]int64
 	// lost: roots that were pending when a process died
-	lost [][]byte
-	viol *simrt.Violation
+	lost   [][]byte
+	violMu sync.Mutex
+	violV  *simrt.Violation
 	// overlap tracking (only relevant when handlers can interleave)
 	inflight int
 	invokes  int
@@ -152,16 +153,26 @@ type c04World struct {
 }
 
 func (w *c04World) fail(v *simrt.Violation) {
-	if v != nil && w.viol == nil {
+	w.violMu.Lock()
+	defer w.violMu.Unlock()
+	if v != nil && w.violV == nil {
 		v.Sig += "|" + w.cfgs
-		w.viol = v
+		w.violV = v
 	}
+}
+
+// getViol: actors waiting in the store run beside the scheduled one, so the
+// verdict field is read and written under a lock.
+func (w *c04World) getViol() *simrt.Violation {
+	w.violMu.Lock()
+	defer w.violMu.Unlock()
+	return w.violV
 }
 
 func (c04) Execute(t *testing.T, ctx *simrt.Ctx) *simrt.Violation {
 	w := &c04World{ctx: ctx, vm: NewVModel(), contentOf: map[string]*State{}, heightOf: map[string]int64{}, slots: map[string]bool{}, slotParent: map[string][]byte{}, slotHeight: map[string]int64{}, resolving: map[string]int{}}
 	simrt.InBubble(t, func() { w.run() })
-	return w.viol
+	return w.getViol()
 }
 
 func goid() uint64 {
@@ -192,7 +203,7 @@ func (w *c04World) run() {
 	}
 	// split into segments at barrier / crash / reopen
 	start := 0
-	for i := 0; i <= len(sc.Ops) && w.viol == nil; i++ {
+	for i := 0; i <= len(sc.Ops) && w.getViol() == nil; i++ {
 		end := i == len(sc.Ops)
 		if !end {
 			k := sc.Ops[i].K
@@ -202,7 +213,7 @@ func (w *c04World) run() {
 		}
 		w.segment(start, i)
 		start = i + 1
-		if w.viol != nil {
+		if w.getViol() != nil {
 			break
 		}
 		ctx.CurOp = i
@@ -242,7 +253,7 @@ func (w *c04World) run() {
 			}
 		}
 	}
-	if w.viol == nil {
+	if w.getViol() == nil {
 		for _, r := range w.slotList {
 			if w.slots[string(r)] {
 				ctx.Fault("pending_never_resolved")
@@ -302,7 +313,7 @@ func (w *c04World) segment(lo, hi int) {
 			c := w.n.Q.Client()
 			for _, i := range idxs {
 				act.Yield(sc.Ops[i].K)
-				if w.viol != nil {
+				if w.getViol() != nil {
 					return
 				}
 				w.do(c, i)
@@ -661,7 +672,7 @@ func (w *c04World) listOverQueue(c queue.Client, root []byte, st *State, start, 
 // verifyCommitted: a positive reply to Commit / Set implies the state is readable
 // with exactly its content, right now, over the queue.
 func (w *c04World) verifyCommitted(c queue.Client, root []byte, st *State, how string) {
-	if w.viol != nil {
+	if w.getViol() != nil {
 		return
 	}
 	keys := make([][]byte, 0, st.Len()+1)
@@ -670,7 +681,7 @@ func (w *c04World) verifyCommitted(c queue.Client, root []byte, st *State, how s
 	}
 	keys = append(keys, []byte("zz-absent"))
 	w.getOverQueue(c, root, st, keys, "after-"+how+"-reply")
-	if w.viol != nil || st.Len() == 0 {
+	if w.getViol() != nil || st.Len() == 0 {
 		return
 	}
 	lo := []byte(st.Keys()[0])
